@@ -324,8 +324,16 @@ main (void)
                   guint8 *hash = (guint8 *) &tl->data[sec->offset];
                   guint32 raw = cmph_search_packed (((guint32 *) hash) + 1, key, strlen (key));
                   g_string_append_printf (out, ", \"raw\": %u", raw);
-                  g_string_append_printf (out, ", \"slot\": %u",
-                                          (guint) _gi_typelib_hash_search (hash, key, header->n_local_entries));
+                  /* The slot the documented section layout (gthash.c: guint32 dirmap_offset, packed cmph,
+                   * guint16 table[n_local_entries]) assigns to the raw value; computed here instead of calling
+                   * the internal _gi_typelib_hash_search so that the driver only depends on public entry points
+                   * and on the file format (an internal signature change must not break the harness). */
+                  {
+                    guint32 clamped = raw >= header->n_local_entries ? 0 : raw;
+                    guint32 dirmap_offset = *((guint32 *) hash);
+                    guint16 *table = (guint16 *) (hash + dirmap_offset);
+                    g_string_append_printf (out, ", \"slot\": %u", (guint) table[clamped]);
+                  }
                 }
               else
                 g_string_append (out, ", \"raw\": null, \"slot\": null");
